@@ -2,7 +2,7 @@
    for every fault plan - the fault cannot have hit a store call the acknowledgement depends on. *)
 From Coq Require Import ZArith NArith List Bool Lia.
 From Tinode Require Import Base.Util Pure.Acs Sys.Topic Sys.TopicTac Sys.TopicFrame Sys.TopicNum Sys.TopicNumThm
-  Sys.TopicCoh Sys.TopicCohProofs Sys.TopicCohStep Sys.TopicCohRun.
+  Sys.TopicCohC08 Sys.TopicCohC08Proofs Sys.TopicCohC08Step Sys.TopicCohC08Run.
 Import ListNotations.
 Open Scope Z_scope.
 
